@@ -63,6 +63,12 @@ ExpectedDiff(e, N, cons, P) ==
           "depended-bindings-kept", OnlyAddsDecls(N, P, top) /\ DependedBindingsKept(N, P, top),
           "not-usable-afterwards", IF OnlyAddsDecls(N, P, top) THEN {x \in Named(P, top) : ~NameUsable(P, x)} ELSE {},
           "adds-declarations-XML-cannot-express", {<<P[j].ln, P[j].u>> : j \in {y \in (Len(N) + 1)..Len(P) : P[y].k = "nsn" /\ (P[y].ln \in {"xml", "xmlns"} \/ P[y].u \in {"", XmlNs})}}>>
+    ELSE IF e.op \in {"dedup", "dedup2"} THEN
+        LET x == A1(e) IN
+        <<"relation", "only-removes-declarations-of-the-subtree", OnlyRemovesDecls(N, P, x),
+          "names-no-longer-usable", IF OnlyRemovesDecls(N, P, x) THEN {nm \in Named(N, x) : NameUsable(N, nm) /\ ~NameUsable(P, nm)} ELSE {},
+          "names-no-longer-usable-within-the-subtree-itself (a declaration was judged superfluous because of a binding outside the subtree)",
+          IF OnlyRemovesDecls(N, P, x) /\ N[x].k = "elem" /\ N[x].p # 0 THEN {nm \in Named(N, x) : NameUsable(CutAt(N, x), nm) /\ ~NameUsable(CutAt(P, x), nm)} ELSE {}>>
     ELSE IF e.op \in RelationalOps THEN <<"relation">>
     ELSE LET same == {o \in EnumAllowed(e, N, cons) : o.res = e.res} IN
          IF same = {} THEN <<"res-not-allowed", {o.res : o \in EnumAllowed(e, N, cons)}>>
@@ -179,6 +185,15 @@ C12Twin(j) ==
     LET e == Rec[j]  pre == PreOf(j)  post == e.post IN
     /\ (e.op = "clone_store" /\ e.res = "ok" /\ ~(post.tw.has /\ post.tw.n = pre.n /\ post.n = pre.n))
           => Report(j, "C12", <<"cloned store differs from its source", DiffIds(post.tw.n, pre.n)>>)
+    \* ... and its xml:id index answers like the source's (same documents, same values, same nodes)
+    /\ (e.op = "clone_store" /\ e.res = "ok" /\ post.tw.has
+          /\ {<<post.tw.xid[q][1], post.tw.xid[q][2], post.tw.xid[q][3]>> : q \in 1..Len(post.tw.xid)}
+               # {<<pre.xid[q][1], pre.xid[q][2], pre.xid[q][3]>> : q \in 1..Len(pre.xid)})
+          => Report(j, "C12", <<"the xml:id index of the cloned store differs from the source's", post.tw.xid, pre.xid>>)
+    /\ (e.op = "clone_store" /\ e.res = "ok"
+          /\ {<<post.xid[q][1], post.xid[q][2], post.xid[q][3]>> : q \in 1..Len(post.xid)}
+               # {<<pre.xid[q][1], pre.xid[q][2], pre.xid[q][3]>> : q \in 1..Len(pre.xid)})
+          => Report(j, "C12", <<"the xml:id index changed across Xot::clone", post.xid, pre.xid>>)
     /\ (e.op # "clone_store" /\ pre.tw.has /\ post.tw.has
           /\ SubSeq(post.tw.n, 1, Len(pre.tw.n)) # pre.tw.n)
           => Report(j, "C12", <<"a call on one store changed the other", DiffIds(SubSeq(post.tw.n, 1, Len(pre.tw.n)), pre.tw.n)>>)
